@@ -268,6 +268,25 @@ def check_packets(t: Tally):
                             bad = f"{cname}: header accessors differ on the copy"
                     except Exception as e:  # noqa: BLE001
                         bad = f"{cname}: header accessors raise on the copy: {e!r}"
+            if not bad and cname != "copy" and len(p.raw_data) >= 8:
+                # independence of deep copies and unpickled copies: using one must not move the other's cursor or change its items
+                q = r[1]
+                try:
+                    p_pos, q_pos = p.raw_data.pos, q.raw_data.pos
+                    q.raw_data.pos = 0
+                    q.raw_data.read_as_int(11)
+                    q["__extra__"] = 1
+                    if p.raw_data.pos != p_pos or "__extra__" in p:
+                        bad = f"{cname}: using the copy changed the original (cursor {p_pos} -> {p.raw_data.pos}, items {'changed' if '__extra__' in p else 'same'})"
+                    del q["__extra__"]
+                    q.raw_data.pos = q_pos
+                    p.raw_data.pos = 0
+                    p.raw_data.read_as_bytes(16)
+                    if q.raw_data.pos != q_pos:
+                        bad = f"{cname}: using the original moved the copy's cursor ({q_pos} -> {q.raw_data.pos})"
+                    p.raw_data.pos = p_pos
+                except Exception as e:  # noqa: BLE001
+                    bad = f"{cname}: independence probe raised {e!r}"
             t.outcomes["packet-copy:" + ("ok" if not bad else "bad")] += 1
             if bad:
                 t.violation({"kind": "packet-copy-differs", "copy": cname.rstrip("012345")}, {"packet_index": i, "copy": cname}, observed=bad)
